@@ -9,7 +9,7 @@ from . import rsx, spec
 VERIF = os.path.dirname(os.path.dirname(os.path.abspath(__file__)))
 REPO = os.environ.get('VERIF_REPO', '/repo')
 
-DROP_ATTRS = ('inline', 'must_use', 'doc', 'derive', 'allow', 'deprecated', 'cfg_attr')
+DROP_ATTRS = ('inline', 'must_use', 'doc', 'allow', 'deprecated', 'cfg_attr')
 
 
 class Unsupported(Exception):
